@@ -123,29 +123,31 @@ theorem obsEq_del {X Y : Node} (a : List Name) (hne : a ≠ []) (hX : X.wf = tru
 
 /-! ## (a) `FS.removetree` -/
 
-/-- **removetree_operational_eq (over the reference's own primitives).**  On a good state, for a path
-without NUL and with fuel for the sub-tree (`treeSize + 1` suffices; fuel bounds the nesting depth of the
-depth-first walk): the walker with its `remove` / `removedir` calls IS the reference's `removetree` — the
-same outcome (error class included: `ResourceNotFound`, `DirectoryExpected`, `IllegalBackReference`), the
-same tree (the sub-tree is gone; the root is kept, empty). -/
-theorem removetree_operational_eq_ref (fuel : Nat) (s : State) (G : Good s) (p : Str) (hn : '\x00' ∉ p)
+/-- **removetree_operational_eq (over the reference's own primitives).**  On a good state, for EVERY path
+(since /repo 433aea4 `FS.removetree` validates its argument: the hypothesis "no NUL in the path" this theorem
+used to carry is gone, `removetree_nul_repaired`) and with fuel for the sub-tree (`treeSize + 1` suffices; fuel
+bounds the nesting depth of the depth-first walk): `validatepath`, then the walker with its `remove` / `removedir`
+calls, IS the reference's `removetree` — the same outcome (error class included: `InvalidCharsInPath`,
+`IllegalBackReference`, `ResourceNotFound`, `DirectoryExpected`), the same tree (the sub-tree is gone; the root is
+kept, empty). -/
+theorem removetree_operational_eq_ref (fuel : Nat) (s : State) (G : Good s) (p : Str)
     (hf : treeSize s.root p < fuel) :
     removetree prim_of_ref fuel s p = Ref.step s (.removetree p) := by
   cases hv : validate p with
   | ok cs => exact removetree_ref_valid fuel s G p cs hv (by simpa [treeSize, hv] using hf)
-  | err e => exact removetree_ref_invalid fuel s G p e hn hv
+  | err e => exact removetree_ref_invalid fuel s G p e hv
 
 /-- **removetree_operational_eq.**  Over the primitives of ANY filesystem `F` that refines the reference:
 the same verdict as `Ref.removetree`; on success the same state; on failure nothing has changed and the
 class is admissible (`Ref.adm`). -/
 theorem removetree_operational_eq (F : FS State) (hF : RefinesRef F) (fuel : Nat) (s : State) (G : Good s)
-    (p : Str) (hn : '\x00' ∉ p) (hf : treeSize s.root p < fuel) :
+    (p : Str) (hf : treeSize s.root p < fuel) :
     let r := removetree (primOfStep F) fuel s p
     let r0 := Ref.step s (.removetree p)
     r.2.isOk = r0.2.isOk ∧ (r0.2.isOk = true → r = r0) ∧ (∀ e, r.2 = .err e → e ∈ adm s (.removetree p) ∧ r.1 = s) := by
   intro r r0
   have hL := (lift_removetree F hF fuel s G p).1
-  rw [show removetree PR fuel s p = r0 from removetree_operational_eq_ref fuel s G p hn hf] at hL
+  rw [show removetree PR fuel s p = r0 from removetree_operational_eq_ref fuel s G p hf] at hL
   rcases lift_cases hL with ⟨s1, v, hr0, hr⟩ | ⟨s1, e0, e', hr0, hr⟩
   · have hr' : r = (s1, .ok v) := hr
     refine ⟨(by rw [hr', hr0]), (fun _ => by rw [hr', hr0]), fun e he => ?_⟩
@@ -160,13 +162,15 @@ theorem removetree_operational_eq (F : FS State) (hF : RefinesRef F) (fuel : Nat
     simp only [Res.err.injEq] at he
     subst he
     refine ⟨?_, by rw [hr']⟩
-    -- the class: `normpath` (pure), or the first `scandir` of the walker
+    -- the class: `validatepath` (the reference's), or the first `scandir` of the walker
     cases hv : validate p with
     | err ev =>
-      obtain ⟨rfl, hres⟩ := validate_err_noNul hn hv
-      have : r = (s1, .err .IllegalBackReference) := by
+      have hvF : (primOfStep F).validatepath s1 p = (s1, .err ev) := by
+        show validateOf F s1 p = _
+        rw [validateOf_exact F hF s1 G p, validateOf_ref s1 G.opn, hv]
+      have : r = (s1, .err ev) := by
         show removetree (primOfStep F) fuel s1 p = _
-        simp [removetree, normRes, ConfineLemmas.normpath_err_of_resolve p hres]
+        simp [removetree, hvF]
       rw [hr'] at this
       simp only [Prod.mk.injEq, Res.err.injEq, true_and] at this
       subst this
@@ -192,7 +196,7 @@ theorem removetree_operational_eq (F : FS State) (hF : RefinesRef F) (fuel : Nat
       obtain ⟨e'', hf'', ha⟩ := lift_call_adm F hF s1 G (.listdir (absOf cs)) rfl e0 hlist
       have : r = (s1, .err e'') := by
         show removetree (primOfStep F) (f + 1) s1 p = _
-        simp [removetree, normRes_of_validate hv, removetreeBody, rmWalk, prim_scandir, scanOf, hf'']
+        simp [removetree, validate_F F hF s1 G p cs hv, removetreeBody, rmWalk, prim_scandir, scanOf, hf'']
       rw [hr'] at this
       simp only [Prod.mk.injEq, Res.err.injEq, true_and] at this
       subst this
@@ -1001,15 +1005,17 @@ theorem copydir_conflict_examples :
     readAt (opRun s2 op) "b/f" = .ok (.bytes [1]) ∧ readAt (opRun s2 op) "a/x" = .ok (.bytes [2]) := by
   decide +kernel
 
-/-- (a) the NUL hypothesis of `removetree_operational_eq` is NEEDED: `FS.removetree` normalises its
-argument (`abspath(normpath(…))`) WITHOUT validating it, so an invalid component that `..` cancels is never
-seen: `removetree('x\0/..')` empties the root, where the reference (and every method that calls
-`validatepath`) raises `InvalidCharsInPath` and changes nothing (finding `C01-removetree-unvalidated-path`) -/
-theorem removetree_nul_counterexample :
+/-- (a) REPAIRED (/repo 433aea4, finding `C01-removetree-unvalidated-path`): `FS.removetree` used to normalise
+its argument (`abspath(normpath(…))`) WITHOUT validating it, so an invalid component that `..` cancels was never
+seen — `removetree('x\0/..')` emptied the root (the former `removetree_nul_counterexample`, which is why
+`removetree_operational_eq` carried a "no NUL" hypothesis).  It now starts with `validatepath` like every other
+method: InvalidCharsInPath, nothing changes — as the reference says -/
+theorem removetree_nul_repaired :
     let s := st [fl "f" [1], dr "d" [fl "g" [2]]]
     let op := Op.removetree ['x', '\x00', '/', '.', '.']
     (Ref.step s op).2 = .err .InvalidCharsInPath ∧ hasAt (Ref.step s op) "f" = .ok (.bool true) ∧
-    (opRun s op).2 = .ok .unit ∧ listAt (opRun s op) "/" = .ok (.names []) := by
+    (opRun s op).2 = .err .InvalidCharsInPath ∧ hasAt (opRun s op) "f" = .ok (.bool true) ∧
+    readAt (opRun s op) "d/g" = .ok (.bytes [2]) := by
   decide +kernel
 
 /-- (a) fuel is what bounds the walk: without it the model answers `Leak` (Python: no bound, the loop ends
@@ -1090,9 +1096,9 @@ theorem own_movedir_is_operational (F : FS State) (hF : RefinesRef F) (fuel : Na
   exact agree_of_refines F hF s G _ _ (not_dev_of_side hov) hl h1 h2 (fun e he => (h3 e he).1)
 
 theorem own_removetree_is_operational (F : FS State) (hF : RefinesRef F) (fuel : Nat) (s : State) (G : Good s)
-    (p : Str) (hn : '\x00' ∉ p) (hf : treeSize s.root p < fuel) :
+    (p : Str) (hf : treeSize s.root p < fuel) :
     Agree s (F s (.removetree p)) (BaseWalk.step fuel false F s (.removetree p)) := by
-  obtain ⟨h1, h2, h3⟩ := removetree_operational_eq F hF fuel s G p hn hf
+  obtain ⟨h1, h2, h3⟩ := removetree_operational_eq F hF fuel s G p hf
   have hl : (Ref.step s (.removetree p)).2 ≠ .err .OperationFailed := MultiFsLemmas.not_loose s _ rfl
   refine agree_of_refines F hF s G _ _ (by simp [knownDeviation]) hl h1 (fun hok => ?_) (fun e he => (h3 e he).2)
   have := h2 hok
@@ -1119,10 +1125,10 @@ theorem mem_movedir_is_operational (fuel : Nat) (s : State) (G : Good s) (p q : 
   own_movedir_is_operational Mem.step mem_refines fuel s G p q create hov hf hl
 
 /-- `MemoryFS.removetree` (un-linking the sub-tree) against the base-class walker over MemoryFS's primitives -/
-theorem mem_removetree_is_operational (fuel : Nat) (s : State) (G : Good s) (p : Str) (hn : '\x00' ∉ p)
+theorem mem_removetree_is_operational (fuel : Nat) (s : State) (G : Good s) (p : Str)
     (hf : treeSize s.root p < fuel) :
     Agree s (Mem.step s (.removetree p)) (BaseWalk.step fuel false Mem.step s (.removetree p)) :=
-  own_removetree_is_operational Mem.step mem_refines fuel s G p hn hf
+  own_removetree_is_operational Mem.step mem_refines fuel s G p hf
 
 /-- **os_copydir_is_operational** (`Os.copydir`: the same modelling decision, over the POSIX model) -/
 theorem os_copydir_is_operational (fuel : Nat) (s : State) (G : Good s) (p q : Str) (create : Bool)
@@ -1137,10 +1143,10 @@ theorem os_movedir_is_operational (fuel : Nat) (s : State) (G : Good s) (p q : S
     Agree s (Os.step s (.movedir p q create)) (BaseWalk.step fuel true Os.step s (.movedir p q create)) :=
   own_movedir_is_operational Os.step os_refines fuel s G p q create hov hf hl
 
-theorem os_removetree_is_operational (fuel : Nat) (s : State) (G : Good s) (p : Str) (hn : '\x00' ∉ p)
+theorem os_removetree_is_operational (fuel : Nat) (s : State) (G : Good s) (p : Str)
     (hf : treeSize s.root p < fuel) :
     Agree s (Os.step s (.removetree p)) (BaseWalk.step fuel false Os.step s (.removetree p)) :=
-  own_removetree_is_operational Os.step os_refines fuel s G p hn hf
+  own_removetree_is_operational Os.step os_refines fuel s G p hf
 
 
 /-! ## (e) the same three theorems for a primitive interface over ANY state type
@@ -1153,7 +1159,7 @@ section Prim
 variable {σ : Type} (P : Prim σ) (emb : State → σ) (H : PrimSim P emb) (A : PrimAdm P emb)
 include H A
 
-theorem removetree_operational_eq_prim (fuel : Nat) (t : State) (G : Good t) (p : Str) (hn : '\x00' ∉ p)
+theorem removetree_operational_eq_prim (fuel : Nat) (t : State) (G : Good t) (p : Str)
     (hf : treeSize t.root p < fuel) :
     let r := removetree P fuel (emb t) p
     let r0 := Ref.step t (.removetree p)
@@ -1164,7 +1170,7 @@ theorem removetree_operational_eq_prim (fuel : Nat) (t : State) (G : Good t) (p 
   have hrd : removetree P fuel (emb t) p = r := rfl
   clear_value r r0
   have hL := (sim_removetree P emb H fuel t G p).1
-  rw [show removetree PR fuel t p = r0 from (removetree_operational_eq_ref fuel t G p hn hf).trans hr0d, hrd] at hL
+  rw [show removetree PR fuel t p = r0 from (removetree_operational_eq_ref fuel t G p hf).trans hr0d, hrd] at hL
   rcases hL with ⟨t1, v, h0, hr⟩ | ⟨t1, e0, e', h0, hr⟩
   · refine ⟨(by rw [hr, h0]), (fun _ => by rw [hr, h0]), fun e he => ?_⟩
     rw [hr] at he; cases he
@@ -1179,10 +1185,9 @@ theorem removetree_operational_eq_prim (fuel : Nat) (t : State) (G : Good t) (p 
     refine ⟨rfl, ?_⟩
     cases hv : validate p with
     | err ev =>
-      obtain ⟨rfl, hres⟩ := validate_err_noNul hn hv
-      have : r = (emb t1, .err .IllegalBackReference) := by
+      have : r = (emb t1, .err ev) := by
         rw [← hrd]
-        simp [removetree, normRes, ConfineLemmas.normpath_err_of_resolve p hres]
+        simp [removetree, A.vpath t1 p G, hv]
       rw [hr] at this
       simp only [Prod.mk.injEq, Res.err.injEq, true_and] at this
       subst this
@@ -1206,7 +1211,7 @@ theorem removetree_operational_eq_prim (fuel : Nat) (t : State) (G : Good t) (p 
       obtain ⟨e'', hf'', ha⟩ := A.scandir_adm t1 (absOf cs) e0 G hlist
       have : r = (emb t1, .err e'') := by
         rw [← hrd]
-        simp [removetree, normRes_of_validate hv, removetreeBody, rmWalk, hf'']
+        simp [removetree, A.vpath t1 p G, hv, removetreeBody, rmWalk, hf'']
       rw [hr] at this
       simp only [Prod.mk.injEq, Res.err.injEq, true_and] at this
       subst this
@@ -1422,15 +1427,14 @@ open Fs.MultiFs Fs.MultiFsLemmas Fs.BaseWalkMulti
 
 /-- the side conditions of (a)–(c), per operation -/
 def WalkerSide (fuel : Nat) (t : State) : Op → Prop
-  | .removetree p => '\x00' ∉ p ∧ treeSize t.root p < fuel
+  | .removetree p => treeSize t.root p < fuel
   | .copydir p q _ => DstNotAboveSrc p q ∧ treeSize t.root p < fuel
   | .movedir p q _ => DstNotAboveSrc p q ∧ treeSize t.root p < fuel
   | _ => True
 
 theorem removetreeM_eq (F : FS State) (fuel : Nat) (s : MState State) (hc : s.closed = false) (p : Str) :
     removetreeM F fuel s p = removetree (MultiFs.prim F) fuel s p := by
-  simp only [removetreeM, removetree, hc, Bool.false_eq_true, if_false]
-  cases normRes p <;> rfl
+  simp only [removetreeM, hc, Bool.false_eq_true, if_false]
 
 /-- **multi_single_write_layer_refines** — FULL: a MultiFS with exactly one layer, which is its write layer
 (what `fsharness.make_backend("multi")` builds), over ANY layer filesystem `F` that refines the reference,
@@ -1442,7 +1446,7 @@ operation but `copydir` / `movedir`, where the tree shows the same at every path
 directories before files); on failure nothing changes and the class is admissible (for `copydir` also the
 `ResourceNotFound` a layer may answer to `makedirs` below a file).
 Side conditions: the loose marker is not the reference's outcome; for the walkers `WalkerSide` (fuel for the
-sub-tree; `removetree`: no NUL in the path — `removetree_nul_counterexample`; `copydir` / `movedir`: the
+sub-tree; `copydir` / `movedir`: the
 destination is not a proper ancestor of the source — `movedir_dst_above_src_counterexample`). -/
 theorem multi_single_write_layer_refines (fuel : Nat) (F : FS State) (hF : RefinesRef F)
     (s : MState State) (l : Layer State) (hl : s.layers = [l]) (hw : s.writeIdx = some l.idx)
@@ -1470,11 +1474,11 @@ theorem multi_single_write_layer_refines (fuel : Nat) (F : FS State) (hF : Refin
     exact ⟨by rw [hr'], ref.1, by rw [hr'], rfl, obsEq_refl _, fun _ => rfl⟩
   · cases op <;> simp only [walker, Bool.true_eq_false, not_false_eq_true, not_true_eq_false] at hwk
     case removetree p =>
-      obtain ⟨hn, hf⟩ := hside
+      have hf : treeSize l.st.root p < fuel := hside
       have hr : r = removetree (MultiFs.prim F) fuel (put1 s l l.st) p := by
         rw [hput]; show MultiFs.step fuel F s (.removetree p) = _
-        simp only [MultiFs.step]; exact removetreeM_eq F fuel s hc p
-      obtain ⟨h1, h2, h3⟩ := removetree_operational_eq_prim (MultiFs.prim F) (put1 s l) H A fuel l.st GS p hn hf
+        simp only [MultiFs.step, hc, Bool.false_eq_true, if_false, stepOpen]; exact removetreeM_eq F fuel s hc p
+      obtain ⟨h1, h2, h3⟩ := removetree_operational_eq_prim (MultiFs.prim F) (put1 s l) H A fuel l.st GS p hf
       rw [← hr] at h1 h2 h3
       refine ⟨h1, fun hok => ?_, fun e he => ?_⟩
       · have := h2 hok
